@@ -1046,25 +1046,75 @@ func (it *strIter) next(w *Worker) Value {
 		it.pos += sz
 		return Tuple{mkBool(true), mkInt(64, uint64(p)), mkInt(32, uint64(r))}
 	}
-	// symbolic bytes: assume ASCII is NOT sound; require the byte to be < 0x80
-	// on this path, otherwise inconclusive.
-	b := it.s.At(it.pos)
-	if b.T != nil {
-		hi := w.P.Cmp(OpUle, w.P.Const(8, 0x80), b.T)
-		if w.decide(hi, "range-string-nonascii") {
-			panic(pathAbort{"inconclusive", "range over symbolic string with non-ASCII byte"})
+	// symbolic (or partly symbolic) bytes: UTF-8 decoding exactly as
+	// utf8.DecodeRuneInString does it, with the byte classes as path decisions
+	P := w.P
+	p := it.pos
+	n := it.s.Len()
+	bt := func(i int) *Term {
+		b := it.s.At(i)
+		if b.T != nil {
+			return b.T
 		}
-		p := it.pos
-		it.pos++
-		return Tuple{mkBool(true), mkInt(64, uint64(p)), w.mkIntT(32, w.P.ZExt(b.T, 32))}
+		return P.Const(8, b.C)
 	}
-	// concrete byte inside partially symbolic string
-	if b.C < 0x80 {
-		p := it.pos
-		it.pos++
-		return Tuple{mkBool(true), mkInt(64, uint64(p)), mkInt(32, b.C)}
+	in := func(t *Term, lo, hi uint64) *Term {
+		return P.BAnd(P.Cmp(OpUle, P.Const(8, lo), t), P.Cmp(OpUle, t, P.Const(8, hi)))
 	}
-	panic(pathAbort{"inconclusive", "range over partially symbolic string with non-ASCII byte"})
+	runeErr := func() Value {
+		it.pos = p + 1
+		return Tuple{mkBool(true), mkInt(64, uint64(p)), mkInt(32, 0xFFFD)}
+	}
+	low := func(t *Term, mask uint64) *Term { return P.ZExt(P.Bin(OpAnd, t, P.Const(8, mask)), 32) }
+	shl := func(t *Term, k uint64) *Term { return P.Bin(OpShl, t, P.Const(32, k)) }
+	b0 := bt(p)
+	if !w.decide(P.Cmp(OpUle, P.Const(8, 0x80), b0), "utf8-lead-byte") {
+		it.pos = p + 1
+		return Tuple{mkBool(true), mkInt(64, uint64(p)), w.mkIntT(32, P.ZExt(b0, 32))}
+	}
+	classes := []struct {
+		lo, hi   uint64
+		sz       int
+		alo, ahi uint64
+	}{
+		{0xC2, 0xDF, 2, 0x80, 0xBF}, {0xE0, 0xE0, 3, 0xA0, 0xBF}, {0xE1, 0xEC, 3, 0x80, 0xBF}, {0xED, 0xED, 3, 0x80, 0x9F},
+		{0xEE, 0xEF, 3, 0x80, 0xBF}, {0xF0, 0xF0, 4, 0x90, 0xBF}, {0xF1, 0xF3, 4, 0x80, 0xBF}, {0xF4, 0xF4, 4, 0x80, 0x8F},
+	}
+	for _, c := range classes {
+		if !w.decide(in(b0, c.lo, c.hi), "utf8-class") {
+			continue
+		}
+		if p+c.sz > n {
+			return runeErr()
+		}
+		b1 := bt(p + 1)
+		if !w.decide(in(b1, c.alo, c.ahi), "utf8-second-byte") {
+			return runeErr()
+		}
+		var r *Term
+		switch c.sz {
+		case 2:
+			r = P.Bin(OpOr, shl(low(b0, 0x1F), 6), low(b1, 0x3F))
+		case 3:
+			b2 := bt(p + 2)
+			if !w.decide(in(b2, 0x80, 0xBF), "utf8-third-byte") {
+				return runeErr()
+			}
+			r = P.Bin(OpOr, P.Bin(OpOr, shl(low(b0, 0x0F), 12), shl(low(b1, 0x3F), 6)), low(b2, 0x3F))
+		case 4:
+			b2, b3 := bt(p+2), bt(p+3)
+			if !w.decide(in(b2, 0x80, 0xBF), "utf8-third-byte") {
+				return runeErr()
+			}
+			if !w.decide(in(b3, 0x80, 0xBF), "utf8-fourth-byte") {
+				return runeErr()
+			}
+			r = P.Bin(OpOr, P.Bin(OpOr, shl(low(b0, 0x07), 18), shl(low(b1, 0x3F), 12)), P.Bin(OpOr, shl(low(b2, 0x3F), 6), low(b3, 0x3F)))
+		}
+		it.pos = p + c.sz
+		return Tuple{mkBool(true), mkInt(64, uint64(p)), w.mkIntT(32, r)}
+	}
+	return runeErr()
 }
 
 type mapIter struct {
